@@ -352,13 +352,18 @@ def value_constraint_init(ctx, cfg, d, field, u0s, t0, hs):
     import jax.numpy as jnp
 
     run_ = L.runner(cfg, field, constraint_init=True)
-    prior = run_.prior(*run_.args(u0s, t0, cfg.base_scale))
+    # the initial mean must *violate* the ODE (otherwise the initial whitened residual is rounding noise and nothing about
+    # the initial datum can be compared): shift the coefficient the constraint observes by dyadic amounts
+    tc, base = run_.args(u0s, t0, cfg.base_scale)
+    shift = jnp.asarray([0.125 * (-1.0) ** a * (a + 1) for a in range(d)], dtype=jnp.float64)
+    tc = tuple(x + shift if k == field.order else x for k, x in enumerate(tc))
+    prior = run_.prior(tc, base)
     grid = np.concatenate([[t0], t0 + np.cumsum(hs)])
     N = len(hs)
-    case = L.case_of(cfg, field, u0s, t0, {"steps": [float(h) for h in hs], "constraint_init": True})
+    case = L.case_of(cfg, field, u0s, t0, {"steps": [float(h) for h in hs], "constraint_init": True, "shift of the observed initial coefficient": np.asarray(shift).tolist()})
     sigp = f"cinit:{cfg.fact}:{cfg.solver}:{cfg.lin}"
-    state0, states, _ = run_.raw_grid(u0s, t0, grid, cfg.base_scale)
-    sol = run_.solve_grid(u0s, t0, grid, cfg.base_scale)
+    state0, states, _ = run_.raw(tc, base, jnp.asarray(grid, dtype=jnp.float64))
+    sol = run_.fixed(tc, base, jnp.asarray(grid, dtype=jnp.float64))
     if not L.finite(sol):
         ctx.skip("non-finite solution with constraint_init")
         return
